@@ -1099,11 +1099,15 @@ def history_pass(ctx, env, R, funcs, rng, judge):
                   "%s(mesh) after a persistent %s is wrong" % (name, "cell_volume" if name == "mean_cell_volume" else "face_area"),
                   got=repr(val), expected=exp)
     if "cell_volume" in funcs:
-        ok, _ = ctx.call("cell_volume", A.cell_volume, m, abort=False)
+        dn = rng.random() < 0.5  # the cached attribute in either storage
+        ctx.cls("history:cached_volume_attribute_" + ("dense" if dn else "sparse"))
+        ok, _ = ctx.call("cell_volume", A.cell_volume, m, dense=dn, abort=False)
         if ok:
             glob("mean_cell_volume", R.mean_cell_volume, REL * 10 * float(np.max(R.cdiam ** 3)))
     elif getattr(R, "all_area_regular", False):
-        ok, _ = ctx.call("face_area", A.face_area, m, abort=False)
+        dn = rng.random() < 0.5  # the cached attribute in either storage
+        ctx.cls("history:cached_area_attribute_" + ("dense" if dn else "sparse"))
+        ok, _ = ctx.call("face_area", A.face_area, m, dense=dn, abort=False)
         if ok:
             glob("total_area", R.total_area, REL * 10 * float(np.sum(R.fdiam ** 2)))
             glob("mean_face_area", R.mean_face_area, REL * 10 * float(np.max(R.fdiam ** 2)))
